@@ -5,6 +5,11 @@ import Frp.Props.C02
   Frp/Model/HttpRewrite.lean + Frp/Model/HttpPool.lean and evaluates the C02 predicates
   (`C02.reqHolds`, `C02.respHolds`, `C02.freshB`) on the implementation's own results.
 
+  Timed ops (`treq`, `tws`, `tconnect`; `req` / `ws` / `connect` are their gap-free instances): the
+  op line carries the time line (upload gaps, header delay, download gaps / tunnel rounds), which is
+  replayed on Frp/Model/HttpTime.lean under `frpLimits 1` (harness: ResponseHeaderTimeoutS = 1);
+  `C02.timedHolds` then demands of the implementation's result what the model's outcome says.
+
   Relational parts (DESIGN §2.4): which idle backend connection the Transport picked (`c=<n>r`) or
   that it dialled (`c=<n>n`) is taken from the implementation's result; the model checks that a
   reused connection is idle under the request's pool key, and continues from the observed choice.
@@ -13,6 +18,7 @@ import Frp.Props.C02
 namespace Frp
 namespace Engines
 open Proto Str HttpRewrite HttpPool
+open HttpTime (Limits Exchange Piece TPiece Dir frpLimits)
 
 namespace HttpEng
 
@@ -141,6 +147,183 @@ def parseConn (t : String) : Option (Option Nat × Nat) :=
 
 def userIp (cli : Nat) : Str := ofString s!"127.0.0.{2 + cli}"
 
+
+/-- `HTTPReverseProxyOptions{ResponseHeaderTimeoutS: 1}` in harness/eng_http.go -/
+def limits : Limits := frpLimits 1
+
+/-- "g1.g2.…" / "-" ↦ gaps in ms -/
+def parseGaps (t : String) : Option (List Nat) :=
+  if t = "-" then some [] else (t.splitOn ".").mapM String.toNat?
+
+/-- the pieces of a timed body: piece `i` carries the opaque payload `[i]` (the bytes themselves are
+    compared through `len.hash` of the whole body) -/
+def piecesOf (gaps : List Nat) : List Piece :=
+  (gaps.zip (List.range gaps.length)).map (fun gi => { gap := gi.1, data := [gi.2] })
+
+/-- "u1.d1.u2.d2…" ↦ the tunnel's time line: round `i` = the user idles `u_i`, sends piece `i`, the
+    backend idles `d_i`, answers with piece `i` -/
+def tunnelOf : List Nat → Nat → List TPiece
+  | u :: d :: rest, i => { gap := u, dir := .up, data := [i] } :: { gap := d, dir := .down, data := [i] } :: tunnelOf rest (i + 1)
+  | _, _ => []
+
+/-- one request / answer exchange (`req`: everything written at once; `treq`: paced by the time line
+    `upG` / `think` / `dnG`, replayed on Frp/Model/HttpTime.lean under `limits`) -/
+def stepReq (st : State) (cli form method host path query user hs body status rhs rbody keep : String)
+    (upG : List Nat) (think : Nat) (dnG : List Nat) (impl : String) : State × Verdict :=
+  match cli.toNat?, unhx host, unhx path, (if query = "-" then some none else (unhx query).map some),
+        (if user = "-" then some [] else unhx user), parsePairs hs, parseBody body,
+        status.toNat?, parsePairs rhs, parseBody rbody with
+  | some cli, some host, some path, some query, some user, some hs, some (bk, bd), some status, some rhs, some (rk, rbd) =>
+    let fs := impl.splitOn " "
+    let (reqF, respF) := (fs.takeWhile (· ≠ "!"), (fs.dropWhile (· ≠ "!")).drop 1)
+    let q : Req := { method := ofString method, absForm := form = "a", path := path, query := query, host := host,
+                     hdr := serverHdr hs, chunked := bk = "ch", body := bd }
+    let upath := pctDecode path
+    -- the pool transition uses the Transport's observed choice
+    match (field reqF "c").bind parseConn with
+    | none => (st, .bad "req: no c= field")
+    | some (reuse, newId) =>
+      let via : Option (Str × Option Str) := if q.absForm then some (path, none) else none
+      let st := adoptSpare st (keyOf poolIsFixed st.P (routeOf st.P host upath user) host via) reuse
+                  ((field reqF "be").bind String.toNat?)
+      let s := st.P
+      -- the exchange on the clock model (dial time is not an observable here: 0)
+      let tlo := HttpTime.relay limits
+        { dial := 0, upload := piecesOf upG, think := some think, download := piecesOf dnG }
+      let timedOut := tlo.answer = .gatewayTimeout
+      -- a connection whose exchange was given up is closed by the Transport, never pooled
+      let (P', out) := HttpPool.step poolIsFixed s (.serve host upath user via reuse newId (keep = "1" && !timedOut))
+      let st' := noteConn { st with P := P' } reuse newId
+      let wellFormed := hs.all (fun kv => kv.1.all tokenByte ∧ kv.1 ≠ []) && pathOk path &&
+        (match query with | some qq => queryClean qq | none => true)
+      if !wellFormed then (st', .skip "request outside the model's domain (header name / path bytes / unparsable query)") else
+      let rc := rcOf s host upath user
+      let rt := rtString s host upath user
+      let r : Resp := { status := status, body := rbd,
+                        hdr := parseHdr (rhs ++ (if keep = "1" then [] else [(kConnection, ofString "close")])) }
+      let implReqB := (field reqF "b").getD "-"
+      let implRespB := (field respF "b").getD "-"
+      let echoEmpty (b : Str) (implB : String) : String :=
+        if b = [] then (if implB.startsWith "0." then implB else "-") else Str.toString b
+      let respStr (u : Resp) : String :=
+        s!"st={u.status} hd={fmtHdr u.hdr} fr={(field respF "fr").getD "?"} b={echoEmpty u.body implRespB}"
+      let model : String :=
+        match out with
+        | .answered o c reused =>
+          let seen := backendSees rc q (some (userIp cli)) false
+          let fr := if seen.body = [] then (field reqF "fr").getD "?" else if seen.chunked then "ch" else "cl"
+          let rM := if tlo.complete ∨ timedOut then r else { r with body := ofString "cut" }
+          let u := if timedOut then userSeesError q.method true else userSees rc q.method rM
+          -- unknown-length answers: ReverseProxy's immediate-flush timer races with the first body
+          -- write, so the server may or may not have a first chunk to sniff (net/http internals)
+          let implHasCT := match (field respF "hd").bind parseHdrMap with
+            | some uh => get uh kCT ≠ []
+            | none => true
+          let u := if (rk = "ch" ∨ rk = "eof") ∧ get u.hdr kCT = [[42]] ∧ !implHasCT
+                   then { u with hdr := del u.hdr kCT } else u
+          s!"be={o} rt={rt} ow={ownerNote s o rt} c={c}{if reused then "r" else "n"} m={hx seen.method} t={hx (targetOf seen seen.host)} h={hx seen.host} hd={fmtHdr seen.hdr} fr={fr} b={echoEmpty seen.body implReqB} ! " ++ respStr u
+        | _ =>
+          let u := userSeesError q.method false
+          s!"be=- rt={rt} c=- ! " ++ respStr u
+      -- the property predicates on the implementation's own results
+      let prop : Option Bool :=
+        match (field reqF "be").bind String.toNat?, (field reqF "t").bind unhx, (field reqF "h").bind unhx,
+              (field reqF "hd").bind parseHdrMap, (field reqF "m").bind unhx,
+              (field respF "st").bind String.toNat?, (field respF "hd").bind parseHdrMap with
+        | some be, some t, some h, some hd, some m, some ust, some uhd =>
+          let (abs, p, qq) := splitTarget t
+          let seen : Req := { method := m, absForm := abs, path := p, query := qq, host := h, hdr := hd,
+                              chunked := (field reqF "fr") = some "ch", body := bodyOfField implReqB }
+          let useen : Resp := { status := ust, hdr := uhd, body := bodyOfField implRespB }
+          let framingOk := seen.body = [] || ((field reqF "fr") = some (if q.chunked then "ch" else "cl"))
+          let reqOk := C02.freshB s host upath user be && C02.reqHolds rc q (userIp cli) seen && framingOk
+          let respOk := C02.respHolds rc q.method r { useen with hdr := useen.hdr.filter (fun e => e.1 ≠ kDate ∧ e.1 ≠ kCT) }
+          some (C02.timedHolds tlo true (ust = 504 ∧ useen.body = []) reqOk respOk (!respF.contains "end=cut"))
+        | _, _, _, _, _, _, _ =>
+          -- no backend was reached: the user must have got one of the two error answers, and only
+          -- if the route has no reachable backend
+          match (field respF "st").bind String.toNat? with
+          | some ust =>
+            let errOk : Bool := (ust = 404 ∧ (implRespB = "page" ∨ (q.method = ofString "HEAD" ∧ implRespB = "-"))) ∨
+                                (ust = 504 ∧ bodyOfField implRespB = [])
+            match out with
+            | .answered _ _ _ => some (errOk && C02.timedHolds tlo false (ust = 504 ∧ bodyOfField implRespB = []) true true true)
+            | _ => some errOk
+          | none => none
+      (st', verdictOf model impl prop)
+  | _, _, _, _, _, _, _, _, _, _ => (st, .bad "req")
+
+/-- a protocol upgrade followed by `gaps.length / 2` tunnel rounds -/
+def stepWs (st : State) (host path user up down : String) (gaps : List Nat) (impl : String) : State × Verdict :=
+  match unhx host, unhx path, (if user = "-" then some [] else unhx user), up.splitOn ".", down.splitOn "." with
+  | some host, some path, some user, [_, ul, uh], [_, dl, dh] =>
+    let fs := impl.splitOn " "
+    let s := st.P
+    let rt := rtString s host path user
+    let ck := C02.cfgKeys (rcOf s host path user)
+    if ck.contains kConnection ∨ ck.contains kUpgrade then
+      (st, .skip "ws: a configured Connection/Upgrade request header replaces the upgrade handshake") else
+    match (field fs "c").bind parseConn with
+    | some (reuse, newId) =>
+      let st := adoptSpare st (keyOf poolIsFixed st.P (routeOf st.P host path user) host none) reuse
+                  ((field fs "be").bind String.toNat?)
+      let s := st.P
+      let st := noteConn st reuse newId
+      let (P', out) := HttpPool.step poolIsFixed s (.serve host path user none reuse newId false)
+      -- the 101 comes at once; then the rounds of the tunnel under the exchange's clocks
+      let tl := tunnelOf gaps 0
+      let tun := HttpTime.upgrade limits 0 0 tl
+      let whole : Bool := tun.1 = .backend ∧ tun.2.1 = tl.map (fun p => (p.dir, p.data)) ∧ tun.2.2 = false
+      let model := match out with
+        | .answered o c reused =>
+          if !whole then s!"be={o} rt={rt} st=101 tunnel=cut" else
+          s!"be={o} rt={rt} ow={ownerNote s o rt} c={c}{if reused then "r" else "n"} st=101 cu={hx (ofString "Upgrade|websocket")} up={ul}.{uh} down={dl}.{dh}"
+        | _ => s!"be=- rt={rt} st=404 b=page"
+      let prop : Option Bool :=
+        match (field fs "be").bind String.toNat? with
+        | some be => some (C02.freshB s host path user be && field fs "up" = some s!"{ul}.{uh}" &&
+                           field fs "down" = some s!"{dl}.{dh}" && field fs "st" = some "101")
+        | none => some (field fs "st" = some "404" ∧ field fs "b" = some "page")
+      ({ st with P := P' }, verdictOf model impl prop)
+    | none =>
+      -- no backend: nothing was dialled or reused
+      let (_, out) := HttpPool.step poolIsFixed s (.serve host path user none none 0 false)
+      let model := match out with
+        | .answered o _ _ => s!"be={o} rt={rt} c=? st=101"
+        | _ => s!"be=- rt={rt} st=404 b=page"
+      (st, verdictOf model impl (some (field fs "st" = some "404" ∧ field fs "b" = some "page")))
+  | _, _, _, _, _ => (st, .bad "ws")
+
+/-- CONNECT followed by tunnel rounds (`connectHandler`: no Transport, no pool, no clock) -/
+def stepConnect (st : State) (host user up down : String) (gaps : List Nat) (impl : String) : State × Verdict :=
+  match unhx host, (if user = "-" then some [] else unhx user), up.splitOn ".", down.splitOn "." with
+  | some host, some user, [_, ul, uh], [_, dl, dh] =>
+    let fs := impl.splitOn " "
+    let s := st.P
+    let rt := rtString s host [] user
+    -- connectHandler: rp.CreateConnection(routeInfo, false), no Transport, no pool
+    let owner : Option Nat :=
+      match routeOf s host [] user with
+      | some r => match s.cfgOf r.payload with
+        | some c => if c.reachable then some r.payload else none
+        | none => none
+      | none => none
+    let tl := tunnelOf gaps 0
+    let tun := HttpTime.tunnel none 0 tl
+    let whole : Bool := tun.1 = tl.map (fun p => (p.dir, p.data)) ∧ tun.2 = false
+    let model := match owner with
+      | some o =>
+        if !whole then s!"be={o} rt={rt} st=200 tunnel=cut" else
+        s!"be={o} rt={rt} st=200 t={hx host} up={ul}.{uh} down={dl}.{dh}"
+      | none => s!"be=- rt={rt} st=404 b=page"
+    let prop : Option Bool :=
+      match (field fs "be").bind String.toNat? with
+      | some be => some (C02.freshB s host [] user be && field fs "up" = some s!"{ul}.{uh}" &&
+                         field fs "down" = some s!"{dl}.{dh}")
+      | none => some (field fs "st" = some "404" ∧ field fs "b" = some "page")
+    (st, verdictOf model impl prop)
+  | _, _, _, _ => (st, .bad "connect")
+
 def step (st : State) (tok : List String) (impl : String) : State × Verdict :=
   match tok with
   | ["reset"] => ({}, verdictOf "-" impl)
@@ -157,133 +340,22 @@ def step (st : State) (tok : List String) (impl : String) : State × Verdict :=
     | some d, some l, some u => ({ st with P := (HttpPool.step poolIsFixed st.P (.unreg d l u)).1 }, verdictOf "-" impl)
     | _, _, _ => (st, .bad "unreg")
   | ["req", cli, form, method, host, path, query, user, hs, body, status, rhs, rbody, keep] =>
-    match cli.toNat?, unhx host, unhx path, (if query = "-" then some none else (unhx query).map some),
-          (if user = "-" then some [] else unhx user), parsePairs hs, parseBody body,
-          status.toNat?, parsePairs rhs, parseBody rbody with
-    | some cli, some host, some path, some query, some user, some hs, some (bk, bd), some status, some rhs, some (rk, rbd) =>
-      let fs := impl.splitOn " "
-      let (reqF, respF) := (fs.takeWhile (· ≠ "!"), (fs.dropWhile (· ≠ "!")).drop 1)
-      let q : Req := { method := ofString method, absForm := form = "a", path := path, query := query, host := host,
-                       hdr := serverHdr hs, chunked := bk = "ch", body := bd }
-      let upath := pctDecode path
-      -- the pool transition uses the Transport's observed choice
-      match (field reqF "c").bind parseConn with
-      | none => (st, .bad "req: no c= field")
-      | some (reuse, newId) =>
-        let via : Option (Str × Option Str) := if q.absForm then some (path, none) else none
-        let st := adoptSpare st (keyOf poolIsFixed st.P (routeOf st.P host upath user) host via) reuse
-                    ((field reqF "be").bind String.toNat?)
-        let s := st.P
-        let (P', out) := HttpPool.step poolIsFixed s (.serve host upath user via reuse newId (keep = "1"))
-        let st' := noteConn { st with P := P' } reuse newId
-        let wellFormed := hs.all (fun kv => kv.1.all tokenByte ∧ kv.1 ≠ []) && pathOk path &&
-          (match query with | some qq => queryClean qq | none => true)
-        if !wellFormed then (st', .skip "request outside the model's domain (header name / path bytes / unparsable query)") else
-        let rc := rcOf s host upath user
-        let rt := rtString s host upath user
-        let r : Resp := { status := status, body := rbd,
-                          hdr := parseHdr (rhs ++ (if keep = "1" then [] else [(kConnection, ofString "close")])) }
-        let implReqB := (field reqF "b").getD "-"
-        let implRespB := (field respF "b").getD "-"
-        let echoEmpty (b : Str) (implB : String) : String :=
-          if b = [] then (if implB.startsWith "0." then implB else "-") else Str.toString b
-        let respStr (u : Resp) : String :=
-          s!"st={u.status} hd={fmtHdr u.hdr} fr={(field respF "fr").getD "?"} b={echoEmpty u.body implRespB}"
-        let model : String :=
-          match out with
-          | .answered o c reused =>
-            let seen := backendSees rc q (some (userIp cli)) false
-            let fr := if seen.body = [] then (field reqF "fr").getD "?" else if seen.chunked then "ch" else "cl"
-            let u := userSees rc q.method r
-            -- unknown-length answers: ReverseProxy's immediate-flush timer races with the first body
-            -- write, so the server may or may not have a first chunk to sniff (net/http internals)
-            let implHasCT := match (field respF "hd").bind parseHdrMap with
-              | some uh => get uh kCT ≠ []
-              | none => true
-            let u := if (rk = "ch" ∨ rk = "eof") ∧ get u.hdr kCT = [[42]] ∧ !implHasCT
-                     then { u with hdr := del u.hdr kCT } else u
-            s!"be={o} rt={rt} ow={ownerNote s o rt} c={c}{if reused then "r" else "n"} m={hx seen.method} t={hx (targetOf seen seen.host)} h={hx seen.host} hd={fmtHdr seen.hdr} fr={fr} b={echoEmpty seen.body implReqB} ! " ++ respStr u
-          | _ =>
-            let u := userSeesError q.method false
-            s!"be=- rt={rt} c=- ! " ++ respStr u
-        -- the property predicates on the implementation's own results
-        let prop : Option Bool :=
-          match (field reqF "be").bind String.toNat?, (field reqF "t").bind unhx, (field reqF "h").bind unhx,
-                (field reqF "hd").bind parseHdrMap, (field reqF "m").bind unhx,
-                (field respF "st").bind String.toNat?, (field respF "hd").bind parseHdrMap with
-          | some be, some t, some h, some hd, some m, some ust, some uhd =>
-            let (abs, p, qq) := splitTarget t
-            let seen : Req := { method := m, absForm := abs, path := p, query := qq, host := h, hdr := hd,
-                                chunked := (field reqF "fr") = some "ch", body := bodyOfField implReqB }
-            let useen : Resp := { status := ust, hdr := uhd, body := bodyOfField implRespB }
-            let framingOk := seen.body = [] || ((field reqF "fr") = some (if q.chunked then "ch" else "cl"))
-            some (C02.freshB s host upath user be && C02.reqHolds rc q (userIp cli) seen && framingOk &&
-                  C02.respHolds rc q.method r { useen with hdr := useen.hdr.filter (fun e => e.1 ≠ kDate ∧ e.1 ≠ kCT) })
-          | _, _, _, _, _, _, _ =>
-            -- no backend was reached: the user must have got one of the two error answers
-            match (field respF "st").bind String.toNat? with
-            | some ust => some ((ust = 404 ∧ (implRespB = "page" ∨ (q.method = ofString "HEAD" ∧ implRespB = "-"))) ∨
-                                (ust = 504 ∧ bodyOfField implRespB = []))
-            | none => none
-        (st', verdictOf model impl prop)
-    | _, _, _, _, _, _, _, _, _, _ => (st, .bad "req")
-  | ["ws", host, path, user, up, down] =>
-    match unhx host, unhx path, (if user = "-" then some [] else unhx user), up.splitOn ".", down.splitOn "." with
-    | some host, some path, some user, [_, ul, uh], [_, dl, dh] =>
-      let fs := impl.splitOn " "
-      let s := st.P
-      let rt := rtString s host path user
-      let ck := C02.cfgKeys (rcOf s host path user)
-      if ck.contains kConnection ∨ ck.contains kUpgrade then
-        (st, .skip "ws: a configured Connection/Upgrade request header replaces the upgrade handshake") else
-      match (field fs "c").bind parseConn with
-      | some (reuse, newId) =>
-        let st := adoptSpare st (keyOf poolIsFixed st.P (routeOf st.P host path user) host none) reuse
-                    ((field fs "be").bind String.toNat?)
-        let s := st.P
-        let st := noteConn st reuse newId
-        let (P', out) := HttpPool.step poolIsFixed s (.serve host path user none reuse newId false)
-        let model := match out with
-          | .answered o c reused =>
-            s!"be={o} rt={rt} ow={ownerNote s o rt} c={c}{if reused then "r" else "n"} st=101 cu={hx (ofString "Upgrade|websocket")} up={ul}.{uh} down={dl}.{dh}"
-          | _ => s!"be=- rt={rt} st=404 b=page"
-        let prop : Option Bool :=
-          match (field fs "be").bind String.toNat? with
-          | some be => some (C02.freshB s host path user be && field fs "up" = some s!"{ul}.{uh}" &&
-                             field fs "down" = some s!"{dl}.{dh}" && field fs "st" = some "101")
-          | none => some (field fs "st" = some "404" ∧ field fs "b" = some "page")
-        ({ st with P := P' }, verdictOf model impl prop)
-      | none =>
-        -- no backend: nothing was dialled or reused
-        let (_, out) := HttpPool.step poolIsFixed s (.serve host path user none none 0 false)
-        let model := match out with
-          | .answered o _ _ => s!"be={o} rt={rt} c=? st=101"
-          | _ => s!"be=- rt={rt} st=404 b=page"
-        (st, verdictOf model impl (some (field fs "st" = some "404" ∧ field fs "b" = some "page")))
-    | _, _, _, _, _ => (st, .bad "ws")
-  | ["connect", host, user, up, down] =>
-    match unhx host, (if user = "-" then some [] else unhx user), up.splitOn ".", down.splitOn "." with
-    | some host, some user, [_, ul, uh], [_, dl, dh] =>
-      let fs := impl.splitOn " "
-      let s := st.P
-      let rt := rtString s host [] user
-      -- connectHandler: rp.CreateConnection(routeInfo, false), no Transport, no pool
-      let owner : Option Nat :=
-        match routeOf s host [] user with
-        | some r => match s.cfgOf r.payload with
-          | some c => if c.reachable then some r.payload else none
-          | none => none
-        | none => none
-      let model := match owner with
-        | some o => s!"be={o} rt={rt} st=200 t={hx host} up={ul}.{uh} down={dl}.{dh}"
-        | none => s!"be=- rt={rt} st=404 b=page"
-      let prop : Option Bool :=
-        match (field fs "be").bind String.toNat? with
-        | some be => some (C02.freshB s host [] user be && field fs "up" = some s!"{ul}.{uh}" &&
-                           field fs "down" = some s!"{dl}.{dh}")
-        | none => some (field fs "st" = some "404" ∧ field fs "b" = some "page")
-      (st, verdictOf model impl prop)
-    | _, _, _, _ => (st, .bad "connect")
+    stepReq st cli form method host path query user hs body status rhs rbody keep [] 0 [] impl
+  | ["treq", cli, form, method, host, path, query, user, hs, body, status, rhs, rbody, keep, upG, think, dnG] =>
+    match parseGaps upG, think.toNat?, parseGaps dnG with
+    | some upG, some think, some dnG =>
+      stepReq st cli form method host path query user hs body status rhs rbody keep upG think dnG impl
+    | _, _, _ => (st, .bad "treq")
+  | ["ws", host, path, user, up, down] => stepWs st host path user up down [0, 0] impl
+  | ["tws", host, path, user, up, down, gaps] =>
+    match parseGaps gaps with
+    | some g => stepWs st host path user up down g impl
+    | none => (st, .bad "tws")
+  | ["connect", host, user, up, down] => stepConnect st host user up down [0, 0] impl
+  | ["tconnect", host, user, up, down, gaps] =>
+    match parseGaps gaps with
+    | some g => stepConnect st host user up down g impl
+    | none => (st, .bad "tconnect")
   | ["silent", hs, ho] =>
     match unhx hs, unhx ho with
     | some hs, some ho =>
